@@ -407,7 +407,17 @@ def rule_inherit_copy(run):
     run.end()
 
 
-RULES = [rule_interface, rule_port_map, rule_templates, rule_library_order, rule_defaults, rule_shared, rule_registration, rule_idset, rule_usage, rule_inherit_copy]
+def rule_names(run):
+    from . import c06
+    c06.rule_names(run)       # instance labels / component names are unique (case-insensitively) however many instances one template has
+
+
+def rule_views(run):
+    from ..rules import views
+    views.run_rule(run, "F-VIEW")   # an actual that is a (nested) slice or element addresses the same bits every time it is formatted (port maps format each actual twice)
+
+
+RULES = [rule_interface, rule_port_map, rule_templates, rule_library_order, rule_defaults, rule_shared, rule_registration, rule_idset, rule_usage, rule_inherit_copy, rule_names, rule_views]
 LEVEL = "other"
 EXPLANATION = (
     "Structural half of 'instantiating equals inlining', for all hierarchies: the emitted interface (declared ports, "
